@@ -319,6 +319,13 @@ def run_desc(desc, d, k):
                   chrom=chrom, length=L)
     inp = {"gene": gdesc.get("name", gdesc["kind"]), "genome": gdesc["genome"], "copies": [list(c) for c in copies], "read_len": read_len, "depth": depth, "shape": shape,
            "desc": desc}
+    # history: every other sample is genotyped after an exome-profile run of the same database in this process (the exome
+    # route switches copy-number calling off for that run only; whatever it answers - usually "gene not in the profile" - is ignored)
+    if k % 2 == 0:
+        try:
+            G.genotype(ypath, sbam, "exome", output_file=None, genome=gdesc["genome"])
+        except Exception:
+            pass
     # intercept the CN stage's answer (read-only)
     seen = {}
     orig = G.cn.estimate_cn
